@@ -8,6 +8,7 @@ mod project;
 mod qtname;
 mod tirdump;
 mod typemap;
+mod typemap_multi;
 mod uigen;
 
 fn main() {
@@ -16,6 +17,7 @@ fn main() {
     let f: fn(&serde_json::Value) -> serde_json::Value = match cmd {
         "color" => color::run,
         "typemap" => typemap::run,
+        "typemap_multi" => typemap_multi::run,
         "tir" => tirdump::run,
         "uigen" => uigen::run,
         "project" => project::run,
